@@ -41,6 +41,7 @@ def b (x : String) : Bool := x == "1"
 def step' (line : String) : String :=
   match line.splitOn "|" with
   | ["D", chunks] => encChars (utf8.decodeIncremental ((splitNE chunks ",").map decChunk))
+  | ["U", chunks] => encChars (utf8.decodeUnflushed ((splitNE chunks ",").map decChunk))   -- live text after these reads
   | ["T", spec] =>
     -- isTty,fg,echo,icanon,vmin,vtime,raise  ->  touches,duringCbreak,restored,raised
     match (match spec.splitOn "," with
